@@ -106,3 +106,25 @@ Theorem C12_start_witnesses_repaired :
    In (UOpened 0 true 201) (user_events true w_stale_out)).
 Proof. exact (conj stale_in_repaired stale_out_repaired). Qed.
 Print Assumptions C12_start_witnesses_repaired.
+
+(* ---------------------------------------------------------------- the end of a Connection *)
+
+(* close_connection spread over several polls (closing a substream can stay pending): while a Connection task
+   waits for its substreams to close it neither reads nor writes nor hands anything to the handle. What the
+   sink still accepts meanwhile is never sent: a closed stream delivers a prefix. *)
+Theorem C12_start_closing_is_silent :
+  forall (s : st) (k : N) (t : task),
+    find_task k (tasks s) = Some t -> t_alive t = true -> t_running t = false ->
+    exists t', find_task k (tasks (task_poll s k)) = Some t' /\ same_io t t'.
+Proof. exact closing_is_silent. Qed.
+Print Assumptions C12_start_closing_is_silent.
+
+(* The user has dropped the NotificationHandle (the channel behind notif_tx is closed) and the Connection holds no
+   slot of that channel: its next poll ends the stream without reading the inbound substream. *)
+Theorem C12_start_handle_gone_closes :
+  forall (s : st) (k : N) (t : task),
+    find_task k (tasks s) = Some t -> t_ph t = PRun -> hdrop s = true -> t_res t = false ->
+    exists t', find_task k (tasks (task_poll s k)) = Some t' /\ t_running t' = false /\
+               t_in t' = t_in t /\ t_fwd t' = t_fwd t.
+Proof. exact handle_gone_closes. Qed.
+Print Assumptions C12_start_handle_gone_closes.
